@@ -20,7 +20,7 @@ NOT_CARRIED = ["os.path.realpath, os.path.exists, glob, shlex, which: assumed co
                "apply_blacklist (translation of the user's redaction config into deny entries)"]
 
 
-def bounded(check):
+def _bounded0(check):
     """bounded stand-in / native witness search for deny-list matching and root containment"""
     import json, os, subprocess
     n = 3 if check.tier == "quick" else 4
@@ -79,3 +79,8 @@ def bounded(check):
         out3["replay"] = path3
     outs.append(out3)
     return outs
+
+
+def bounded(check):
+    from props._xcheck import xcheck
+    return list(_bounded0(check)) + [xcheck(check, ['providers'], 'blacklist')]
